@@ -728,6 +728,14 @@ impl<Front: SocketHandler> ConnectionH1<Front> {
                         stream.front.clear();
                         // do not stream.front.storage.clear() because of H1 pipelining
                         stream.attempts = 0;
+                        // Same per-request fields as `Context::create_stream` resets
+                        // on a recycled slot: a stale end-of-stream mark makes an H2
+                        // backend's next response HEADERS look like a frame on a
+                        // closed stream (GOAWAY STREAM_CLOSED, the request gets 502).
+                        stream.front_received_end_of_stream = false;
+                        stream.back_received_end_of_stream = false;
+                        stream.front_data_received = 0;
+                        stream.back_data_received = 0;
                         // Transition back to Idle so buffered pipelined requests
                         // trigger a phase transition on the next readable() call.
                         stream.state = StreamState::Idle;
